@@ -34,7 +34,8 @@ L_CAP = 64
 C2 = ['v1', 'v2', 'x', 'v1', 'v10', 'v2']
 C3 = ['p;q', 'r', '', 's;t;u', 'p;q', 'r;r']
 
-ITEMS = ['a1', 'a2', 'a3', 'NR', "'lit'", 'a1 + a2', 'NR % 2 - 2', 'NR % 3 - 2', 'a2', 'a1']
+LIST_ITEM = "a3.split(';')"
+ITEMS = ['a1', 'a2', 'a3', 'NR', "'lit'", 'a1 + a2', 'NR % 2 - 2', 'NR % 3 - 2', 'a2', 'a1', LIST_ITEM]
 UNNEST_ITEM = "UNNEST(a3.split(';'))"
 WHERES = [None, None, "a2 == 'v1'", 'NR <= 3', 'NR <= 5', "like(a2, 'v%')", 'a1 != a1', "a2 != 'zz'"]
 
@@ -315,7 +316,7 @@ def generate(rng, tier, idx):
         sc['items'] = items = items + ['b2']
     sc['distinct'] = rng.choice([None, None, None, 'd', 'd', 'dc'])
     sc['order'] = None
-    sortable = [i for i in range(len(items)) if i != sc['unnest_at'] and not (items[i] == 'b2' and sc['join'] == 'left join')]
+    sortable = [i for i in range(len(items)) if i != sc['unnest_at'] and items[i] != LIST_ITEM and not (items[i] == 'b2' and sc['join'] == 'left join')]
     if rng.random() < 0.4 and sortable:
         cols = [rng.choice(sortable)]
         if rng.random() < 0.35 and len(sortable) > 1:
@@ -325,7 +326,7 @@ def generate(rng, tier, idx):
         sc['order'] = {'cols': cols, 'dir': rng.choice([None, 'asc', 'desc', 'DESC', 'desc'])}
         if rng.random() < 0.4:
             # keys that are not (all) in the select list; ints and strings are never mixed within one key position
-            pool = ['a1', 'a2', 'a3', 'NR', 'a2 + a1', 'a1.length' if False else 'NR % 2', 'NR % 3']
+            pool = ['a1', 'a2', 'a3', 'NR', 'a2 + a1', 'NR % 2', 'NR % 3', LIST_ITEM, "[NR % 2] + a3.split(';')"]
             exprs = [rng.choice(pool)]
             if rng.random() < 0.4:
                 exprs.append(rng.choice(pool))
@@ -396,6 +397,14 @@ def execute(sc):
 
 def check_engine(sc, eng, counters, res, digest_parts):
     run = RUNNERS[eng]
+    if eng == 'js' and sc.get('order') and any('split' in x for x in (sc['order'].get('exprs') or [])):
+        # arrays as sort keys are compared through their string form in JavaScript: engine-specific, not generated for rbql-js
+        bump(counters, 'discard.js_list_valued_sort_key')
+        return 'discard'
+    if eng == 'py' and sc.get('distinct') and LIST_ITEM in [it for i, it in enumerate(sc['items']) if i != sc.get('unnest_at')]:
+        # a list-valued column is not hashable: DISTINCT over it is an error in the Python engine by construction (fine in JS)
+        bump(counters, 'discard.py_distinct_over_list_column')
+        return 'discard'
     producer = sc['producer']
     join_rows = sc['join_rows']
     bound = sc.get('bound')
